@@ -32,6 +32,13 @@ def run(prog):
             dom = [d for d in dom if all(fn.cfg.dominates(e.bb, d.bb) for e in dom)]
             if len(dom) == 1 and dom[0] is ctx.cs:
                 sites.append(cs)
+        helper_site_bbs = set()
+        for c_, v_ in tdctx.tail_sites(prog, fn):
+            dom = [d for d in decides if fn.cfg.dominates(d.bb, c_.bb)]
+            dom = [d for d in dom if all(fn.cfg.dominates(e.bb, d.bb) for e in dom)]
+            if len(dom) == 1 and dom[0] is ctx.cs:
+                sites.append(v_)
+                helper_site_bbs.add(c_.bb)
         pol = ctx.pol
         # every non-UNSAT outcome of the decide reaches the pop through a conjoin_implied site
         site_bbs = {cs.bb for cs in sites}
